@@ -64,6 +64,11 @@ def script_text(df, ver, rule, alias=None):
                 lines.append('    printf "%%s" %s > %s' % (shquote(render({'n': a, 'k': 'side', 'v': 0, 'd': []})), shquote(rel(a))))
             elif op == 'failif':
                 lines.append('    if [ -e %s ]; then echo "exit %s %d" >> "$VT_LOG"; exit %d; fi' % (shquote(rel(o['args'][0])), t, o['rc'], o['rc']))
+            elif op == 'ifchangeif':
+                # a dependency list computed from data: ask for args[2:] unless args[0] was made from version 1 of args[1]
+                rest = ' '.join(shquote(rel(a)) for a in o['args'][2:])
+                lines.append('    case "$(rd %s)" in *"(%s@user.1()"*) ;; *) redo-ifchange %s; vjit ;; esac'
+                             % (shquote(rel(o['args'][0])), o['args'][1], rest))
             elif op == 'ifcreate':
                 lines.append('    redo-ifcreate %s' % args)
             elif op == 'watch':
